@@ -49,9 +49,10 @@ def main():
     ap.add_argument('prop')
     ap.add_argument('n')
     ap.add_argument('--name', default='')
+    ap.add_argument('--as', dest='as_n', default='', help='store under this number instead of <n>')
     ap.add_argument('--recheck', action='store_true', help='only re-run the checks for an already stored seed')
     a = ap.parse_args()
-    sid = '%s-%s%s' % (a.prop, a.n, ('-' + a.name) if a.name else '')
+    sid = '%s-%s%s' % (a.prop, a.as_n or a.n, ('-' + a.name) if a.name else '')
     dest = os.path.join(VERIF, 'seeded', sid)
     tmp = tempfile.mkdtemp(prefix='seedchk_')
     wt = os.path.join(tmp, 'wt')
